@@ -164,6 +164,18 @@ def run_case(case, ctx):
         if np.asarray(W).tobytes() != W_then.tobytes() or np.asarray(w_n).tobytes() != w_then.tobytes():
             ctx.reject('returned_weights_changed_by_a_later_call', observed=np.asarray(W)[-1], expected=W_then[-1])
             return
+        if isinstance(W, np.ndarray) and isinstance(w_n, np.ndarray) and W.flags.writeable and w_n.flags.writeable:
+            # ... and what the caller does to the arrays it was given (scaling the weights in place) must not reach the library:
+            # the same request again gives the same weights
+            W *= 0.5
+            w_n += 1.0
+            W_again, w_again = fd_weights_all(xin, x0, n), fd_weights(xin, x0, n)
+            ctx.count('same_request_repeated_after_the_caller_modified_its_result')
+            if np.asarray(W_again).tobytes() != W_then.tobytes() or np.asarray(w_again).tobytes() != w_then.tobytes():
+                ctx.reject('weights_depend_on_what_the_caller_did_to_an_earlier_result', observed=np.asarray(W_again)[-1], expected=W_then[-1],
+                           detail=dict(n=n))
+                return
+            W, w_n = W_again, w_again
     except Exception as exc:
         ctx.reject('raised', observed=repr(exc))
         return
